@@ -92,6 +92,12 @@ pub fn check_one<V: Fv>(ty: Ty, class: &str, b: &[u8], rep: &mut Report) {
 
 fn run_v<V: Fv>(ctx: &Ctx, rep: &mut Report) {
     let (keys, _bad) = pool::keys::<V>(ctx.seed, "c06", ctx.sz(2, 12));
+    if let Some(k0) = keys.first() {
+        if !crate::signer::canary::<V>(&k0.sk) {
+            rep.inconclusive("sign does not terminate or panics on a fresh key (reported by C01); this leg needs working signatures".into());
+            return;
+        }
+    }
     let mut valids: Vec<(Ty, Vec<u8>)> = vec![];
     for k in &keys {
         valids.push((Ty::Pk, V::pk_to_bytes(&k.pk)));
